@@ -196,7 +196,7 @@ pub fn explore_fixpoint(start: XWorld, o: &XOpts) -> (XStats, Option<String>) {
         }
         st.states += next.len() as u64;
         st.all_joined_states += next.iter().filter(|w| w.nodes.iter().all(|n| n.is_some())).count() as u64;
-        if st.states > o.max_states {
+        if st.states > o.max_states || crate::e2::past_budget() {
             st.capped = true;
             return (st, None);
         }
